@@ -175,6 +175,7 @@ class World:
         self.ever_ips = {}
         self.dead_ports = set()
         self.faulted = False   # a kill or an injected failure has happened
+        self.leaky = set()     # requests that held two ips (after a fault)
         self.unprocessed_del = set()   # deletions the service has not seen
         self.raced = set()     # ids requested again before that (provenance)
 
@@ -778,7 +779,13 @@ class World:
                           'its ip (after %s)' % (rid, held_by[rid], ip,
                                                  op['op']))
                 return
+            if rid in held_by:
+                # only reachable after an injected fault (a failed delete
+                # leaks the old ip until synchronize): which of its own two
+                # addresses a restarted service re-reads is then open
+                self.leaky.add(rid)
             held_by[rid] = ip
+        self.leaky &= set(live)
         holders = {}
 
         def prov(*rids):
@@ -816,7 +823,8 @@ class World:
                               'allocated any more (after %s)' % (
                                   rid, ip, op['op']))
                 return
-            if ent['ip'] is not None and ent['ip'] != ip:
+            if (ent['ip'] is not None and ent['ip'] != ip and
+                    rid not in self.leaky):
                 self.fail('C14:netsvc-ip-changed' + prov(rid),
                           'request %s had ip %s and now has %s (after %s)' %
                           (rid, ent['ip'], ip, op['op']))
